@@ -805,7 +805,11 @@ class Operation:
 
             for idx in range(len(begin_tens.values)):
                 offset_start[idx] = begin_tens.values[idx]
-                offset_end[idx] = size_tens.values[idx] + offset_start[idx]
+                if size_tens.values[idx] == -1:
+                    # a size of -1 takes everything from the begin position to the end of the dimension
+                    offset_end[idx] = input_tens.shape[idx]
+                else:
+                    offset_end[idx] = size_tens.values[idx] + offset_start[idx]
 
         elif self.type == Op.StridedSlice:
             input_tens, begin_tens, end_tens, strides_tens = self.inputs
